@@ -257,6 +257,15 @@ impl Check for C19 {
     fn num_cases(&self, tier: Tier) -> u64 {
         tier.pick(150_000, 3_000_000)
     }
+    fn builtin_corpus(&self) -> Vec<Case> {
+        // the top of the supported range: the largest length (NTT of 2^20 points), the first
+        // length that needs it, and the neighbours of the 2^16 element count
+        [(1usize << 19) - 1, 1 << 18, (1 << 18) - 1, 65_535, 65_536, 65_537]
+            .iter()
+            .enumerate()
+            .map(|(i, len)| Case::Batch { len: *len, key_seed: 11 + i as u64, reports: vec![(5 + i as u64, None, Alter::None), (9 + i as u64, Some((7, 2)), Alter::None)] })
+            .collect()
+    }
     fn enumerate(&self, tier: Tier, shard: usize, nshards: usize, f: &mut dyn FnMut(Case) -> bool) {
         // constructed nonces: the larger the domain, the cheaper the search (2n / 2^32 per nonce)
         let n = tier.pick(4usize, 32);
